@@ -856,7 +856,7 @@ def c19_cases(seed, tier, full):
     for v in ADAPTIVE:
         combos = [(1, 1), (2, 1), (1, 3)] if thorough else [(1, 1), (2, 1), (1, 3)]
         for k, ss in combos:
-            for nres in ((0, 1, 2, 3, 4) if thorough else (2, 4) if (k, ss) == (1, 1) else (1,) if k > 1 else (3,)):
+            for nres in ((0, 1, 2, 3, 4) * 3 if thorough else (2, 4) if (k, ss) == (1, 1) else (1,) if k > 1 else (3,)):
                 partner = rng.choice(NONADAPTIVE + ADAPTIVE) if rng.random() < 0.6 else None
                 vn = [v] + ([partner] if partner else [])
                 if any('componentwise' in x for x in vn) and any('discrete' in x for x in vn):
@@ -875,7 +875,7 @@ def c19_cases(seed, tier, full):
                 partner = None
             st = pt_setup([v] + ([partner] if partner else []), rng, ntemps=nt,
                           swap_interval=rng.choice([1, 2]), nchains=1)
-            units.append(('pt', st, rng.randrange(1, 10 ** 6), 12 if not thorough else 30))
+            units.append(('pt', st, rng.randrange(1, 10 ** 6), 12 if not thorough else 60))
     # a jump interval larger than the swap interval: the first sweep meets nsteps == 0
     for v in (ADAPTIVE if thorough else ADAPTIVE[:3]):
         st = pt_setup([v], rng, ntemps=2, swap_interval=1, nchains=1, k=3)
